@@ -8,7 +8,7 @@ from __future__ import annotations
 
 from typing import Any, Dict
 
-from rpv.checks.fullreport_common import make_case, run_case
+from rpv.checks.fullreport_common import corpus_case, make_case, run_case
 from rpv.expected import Expected
 
 PROPERTY_ID = "C13"
@@ -59,7 +59,10 @@ def run_shard(ctx: Any) -> None:
         if ctx.expired():
             break
         index = ctx.shard + i * ctx.nshards
-        _one(ctx, expected, make_case(ctx.rng("case", index)), f"c13-{index}")
+        case = corpus_case(ctx.rng("corpus", index), index // 8) if index % 8 == 5 else None
+        if case is not None:
+            ctx.count("shipped_example_input_cases")
+        _one(ctx, expected, case or make_case(ctx.rng("case", index)), f"c13-{index}")
 
 
 def replay(ctx: Any, case: Dict[str, Any]) -> None:
